@@ -210,6 +210,8 @@ struct Options {
     int max_preempt = 2;
     std::string concrete_file;  // run with concrete inputs from file
     std::string sched;          // schedule choices to follow in concrete mode
+    std::string dump_dir;       // thorough tier: dump discharged assertion queries for the second-solver cross-check
+    unsigned dump_max = 40, dump_every = 7;
     bool verbose = false;
     bool trace_calls = false;
     uint64_t max_paths = 0;
@@ -257,6 +259,7 @@ struct Engine {
     bool concrete_mode = false;
     bool stop_all = false;
     size_t sched_pos = 0;
+    unsigned dumped_queries = 0;
     std::map<std::string, uint64_t> unsat_sites;
     bool init_phase = false;
     uint64_t init_steps = 0;
@@ -305,7 +308,7 @@ struct Engine {
     std::unordered_map<uint64_t, std::vector<QCache>> qcache;
     // check pc && extra with a fresh solver over the constraints that (transitively) share
     // variables with `extra`; returns 1 sat, 0 unsat, -1 unknown.  On sat, *out is a full assignment.
-    int check(State &S, const z3::expr &extra, Assign *out) {
+    int check(State &S, const z3::expr &extra, Assign *out, bool is_assert = false) {
         auto t = std::chrono::steady_clock::now();
         queries++;
         const std::vector<uint32_t> &qv = vars_in(extra);
@@ -342,6 +345,10 @@ struct Engine {
             sv.add(extra);
             if (const char *dq = getenv("SYMX_DUMP")) if ((uint64_t)atoll(dq) == queries) { std::cerr << sv.to_smt2() << std::endl; }
             z3::check_result r = sv.check();
+            if (is_assert && r == z3::unsat && !opt.dump_dir.empty() && dumped_queries < opt.dump_max && (q_unsat % opt.dump_every) == 0) {
+                std::ofstream f(opt.dump_dir + "/q_" + std::to_string(opt.shard) + "_" + std::to_string(dumped_queries++) + ".smt2");
+                f << "(set-logic QF_BV)\n" << sv.to_smt2() << "\n";
+            }
             res = r == z3::sat ? 1 : (r == z3::unsat ? 0 : -1);
             QCache qc;
             qc.res = res;
